@@ -387,6 +387,7 @@ static void execOp(const Group& T, const Op& o) {
         delete local;
         break;
     }
+    case K_DETECTOR_OFF: MemoryLeakWarningPlugin::getGlobalDetector()->disable(); fired("detector_left_switched_off_by_a_failing_test"); break;
     case K_NESTED_RUN: {      // as the library's own tests do: a fixture with a registry, output and result of its own runs one test; afterwards the outer test is current again
         TestTestingFixture fx; fx.setTestFunction(o.a ? nestedFailingTest : nestedPassingTest);
         if ((o.b & 1) && RS.innerSetPtr) { fx.installPlugin(RS.innerSetPtr); fired("nested_run_with_its_own_pointer_plugin"); }      // its post action restores (early) what the outer test redirected so far
